@@ -65,6 +65,9 @@ func (p *c12) source(c fw.Case) (name, src string) {
 		late := "\nfunc useRedecl() int {\n\tvar e error\n\tn, e := strconv.Atoi(\"7\")\n\tm, e := strconv.Atoi(\"8\")\n\t_ = e\n\tfor i, e := 0, error(nil); i < 1; i++ {\n\t\t_ = e\n\t}\n\treturn n + m\n}\n\nfunc useLate() int {\n\tlateB := \"local\"\n\t_ = lateB\n\treturn lateA + len(lateC) + lateK + int(lateT(2)) + lateF()\n}\n"
 		src = strings.Replace(src, "func main() {", late+"\nfunc main() {\n\t_ = useLate() + useRedecl()", 1)
 		src += "\nvar lateA, lateB = 3, 4\n\nvar lateC = \"late\"\n\nconst lateK, lateL = 7, \"l\"\n\ntype lateT int\n\nfunc lateF() int { return lateB + len(lateL) }\n"
+		// embedded fields: by value, by pointer, and a qualified pointer type; the field object is declared at the type name
+		src += "\ntype embBase struct {\n\tN int\n}\n\ntype embPlain struct {\n\tembBase\n}\n\ntype embWrap struct {\n\t*embBase\n\tname string\n}\n\ntype embQual struct {\n\t*strconv.NumError\n\tembPlain\n}\n\nfunc useEmb() int {\n\tw := embWrap{embBase: &embBase{N: 1}, name: \"w\"}\n\tq := embQual{NumError: &strconv.NumError{Func: \"f\"}}\n\treturn w.N + q.N + len(q.Func) + len(w.name) + embPlain{}.N\n}\n"
+		src = strings.Replace(src, "_ = useLate() + useRedecl()", "_ = useLate() + useRedecl() + useEmb()", 1)
 		return "main.xgo", src
 	case "sugar":
 		switch c.P["g"] {
@@ -230,11 +233,31 @@ func (p *c12) Run(c fw.Case, r *fw.Rec) {
 		r.Cover("foreign-node-in-" + which)
 		r.Fail("foreign-node:synthesized-inside-"+in, "%s has a key (%s at %v, %q) that is not a node of the checked file", which, oracle.Kind(n), pos, clipS(srcSlice(src, fset, nn), 60))
 	}
+	// struct types of the file: a misplaced field object there is a different site from the class-file var block
+	var structSpans [][2]token.Pos
+	func() {
+		defer func() { recover() }()
+		ast.Inspect(f, func(n ast.Node) bool {
+			if st, ok := n.(*ast.StructType); ok {
+				structSpans = append(structSpans, [2]token.Pos{st.Pos(), st.End()})
+			}
+			return true
+		})
+	}()
 	for id, obj := range info.Defs {
 		r.Cover("defs-checked")
 		foreign("Defs", id)
 		if obj != nil && obj.Pos() != id.Pos() {
-			r.Fail("defs-position-invariant:"+objKind(obj), "Defs[%s at %v] = %s declared at %v: Defs[id].Pos() != id.Pos()", id.Name, fset.Position(id.Pos()), objDesc(obj), fset.Position(obj.Pos()))
+			kind := objKind(obj)
+			if kind == "field" {
+				for _, sp := range structSpans {
+					if sp[0] <= id.Pos() && id.Pos() < sp[1] {
+						kind = "field:in-struct-type"
+						break
+					}
+				}
+			}
+			r.Fail("defs-position-invariant:"+kind, "Defs[%s at %v] = %s declared at %v: Defs[id].Pos() != id.Pos()", id.Name, fset.Position(id.Pos()), objDesc(obj), fset.Position(obj.Pos()))
 		}
 	}
 	for id, obj := range info.Uses {
